@@ -168,8 +168,10 @@ class Sigma(common.SpaceMixin, Obligation):
     validate_paths = 8
     timeout_ms = 30000
     max_paths = 4000
+    objfloat = True
     twin_modules = ('PseudoNetCDF.coordutil',)
-    stubs = ('numpy.interp (documented definition)',)
+    stubs = ('numpy.interp (documented definition)',
+             'np.zeros(float) allocates an object array (real mode)')
 
     def __init__(self, no, nn):
         self.no, self.nn = no, nn  # numbers of edges
